@@ -52,3 +52,75 @@ Definition in_range (s : csrc) (k : ckey) (z : Z) : bool :=
   | CStatus => (0 <=? z) && (z <=? type_max s CStatus)   (* no documented bound: the type's *)
   | CHealth => (0 <=? z) && (z <=? 65535)
   end.
+
+(* ---------------------------------------------------------------------------------------------
+   is_valid_config over a WHOLE configuration (src/config/mod.rs), mirroring its control flow: one
+   mutable flag that is only ever cleared, checks in source order, and the one panic-capable
+   expression (`dir.metadata().unwrap()` on a path that does not exist). The model enters at the
+   values the getters return; the state of the persistence directory is an input. *)
+Inductive kms_mode := KmsPlaintext | KmsEnabled.
+
+Record dirinfo := mkdir { d_exists : bool; d_is_dir : bool; d_readonly : bool }.
+
+Record settings := mksettings {
+  s_port : Z;
+  s_interface_empty : bool;
+  s_seed_len : Z;                 (* bytes of the decoded seed value; 0 = missing *)
+  s_kms : kms_mode;
+  s_batch : Z;
+  s_fault : Z;
+  s_workers : Z;
+  s_client_stats : bool;
+  s_pdir : option dirinfo;
+  s_addr_parses : bool            (* udp_socket_addr(): "<interface>:<port>" parses *)
+}.
+
+Inductive vres := VOk (valid : bool) | VPanic.
+
+Definition SEED_LEN : Z := 32.
+
+Definition is_valid_config (c : settings) : vres :=
+  let v := true in
+  let v := if s_port c =? 0 then false else v in
+  let v := if s_interface_empty c then false else v in
+  let v := if s_seed_len c =? 0 then false
+           else match s_kms c with
+                | KmsPlaintext => if negb (s_seed_len c =? SEED_LEN) then false else v
+                | KmsEnabled => if s_seed_len c <=? SEED_LEN then false else v
+                end in
+  let v := if (s_batch c <? 1) || (64 <? s_batch c) then false else v in
+  let v := if 50 <? s_fault c then false else v in
+  let v := if s_workers c =? 0 then false else v in
+  let after_dir : vres :=
+    if s_client_stats c then
+      match s_pdir c with
+      | Some d =>
+          let v := if negb (d_is_dir d) then false else v in
+          if negb (d_exists d) then VPanic            (* dir.metadata().unwrap() *)
+          else VOk (if d_readonly d then false else v)
+      | None => VOk false
+      end
+    else VOk v in
+  match after_dir with
+  | VPanic => VPanic
+  | VOk v => VOk (if v then (if s_addr_parses c then true else false) else false)
+  end.
+
+(* what the documentation promises, as one conjunction *)
+Definition config_ok (c : settings) : bool :=
+  negb (s_port c =? 0)
+  && negb (s_interface_empty c)
+  && (match s_kms c with
+      | KmsPlaintext => s_seed_len c =? SEED_LEN
+      | KmsEnabled => SEED_LEN <? s_seed_len c
+      end)
+  && (1 <=? s_batch c) && (s_batch c <=? 64)
+  && (s_fault c <=? 50)
+  && negb (s_workers c =? 0)
+  && (if s_client_stats c
+      then match s_pdir c with
+           | Some d => d_exists d && d_is_dir d && negb (d_readonly d)
+           | None => false
+           end
+      else true)
+  && s_addr_parses c.
